@@ -9,6 +9,7 @@ import (
 	"os/exec"
 	"path/filepath"
 	"strings"
+	"syscall"
 	"time"
 
 	"github.com/wkhere/bcl"
@@ -275,6 +276,54 @@ func c18Case(c *core.Ctx, i int64, r *rand.Rand, dir string, src []byte, kind st
 	if !check(noFile, file, "/dev/stdin") {
 		return
 	}
+	// the file given by a name that is not a regular file: /dev/stdin, and a named pipe someone writes the program to
+	if i%4 == 1 {
+		var withDev []string
+		for _, a := range flagsOnly[0] {
+			if a == "-" {
+				a = "/dev/stdin"
+			}
+			withDev = append(withDev, a)
+		}
+		if !check(withDev, file, "/dev/stdin") {
+			return
+		}
+		fifo := filepath.Join(dir, fmt.Sprintf("%dpipe.bcl", i))
+		if err := syscall.Mkfifo(fifo, 0o644); err == nil {
+			done := make(chan struct{})
+			go func() {
+				defer close(done)
+				if w, err := os.OpenFile(fifo, os.O_WRONLY, 0); err == nil { // blocks until the command opens the pipe
+					w.Write(src)
+					w.Close()
+				}
+			}()
+			var withPipe []string
+			for _, a := range flagsOnly[0] {
+				if a == "-" {
+					a = filepath.Base(fifo)
+				}
+				withPipe = append(withPipe, a)
+			}
+			wantOut, wantErr, wantExit := libExpect(file, filepath.Base(fifo), fl)
+			got := runCLI(dir, "", withPipe...)
+			c.Eval(1)
+			// release the writer if the command never opened the pipe
+			if rd, err := os.OpenFile(fifo, os.O_RDONLY|syscall.O_NONBLOCK, 0); err == nil {
+				<-done
+				rd.Close()
+			}
+			os.Remove(fifo)
+			if got.timedOut {
+				c.Inconclusive("run on a named pipe did not finish")
+			} else if got.stdout != wantOut || got.stderr != wantErr || got.exit != wantExit {
+				c.Violation("cli-differs-from-library:named-pipe", fmt.Sprintf("bcl %q with the file being a named pipe: outcome differs from the library's (exit %d, expected %d)", withPipe, got.exit, wantExit), det(withPipe, got, wantOut, wantErr, wantExit))
+				return
+			} else {
+				c.Count("process_runs_on_a_named_pipe", 1)
+			}
+		}
+	}
 	// standard input arriving through a pipe in two pieces (a writer that pauses)
 	if i%6 == 0 && len(src) > 4 {
 		wantOut, wantErr, wantExit := libExpect(file, "/dev/stdin", fl)
@@ -456,6 +505,29 @@ func c18Usage(c *core.Ctx, dir string) {
 			c.Count("usage_and_io_error_cases", 1)
 		}
 	}
+	// every kind of standard input, with the file omitted and given as '-': an empty input is an empty program
+	os.WriteFile(filepath.Join(dir, "empty.bcl"), nil, 0o644)
+	for _, stdin := range []string{"/dev/null", filepath.Join(dir, "empty.bcl"), ok} {
+		for _, args := range [][]string{{}, {"-"}} {
+			got := runCLI(dir, stdin, args...)
+			c.Eval(1)
+			want := ""
+			if stdin == ok {
+				want = "1\n"
+			}
+			if got.timedOut {
+				c.Inconclusive(fmt.Sprintf("bcl %q < %s did not finish", args, stdin))
+				continue
+			}
+			if got.exit != 0 || got.stdout != want || got.stderr != "" {
+				c.Violation("cli-differs-from-library:kind-of-standard-input", fmt.Sprintf("bcl %q with standard input %s: exit %d, stdout %q, stderr %q; the library gives exit 0, %q and no diagnostics", args, stdin, got.exit, got.stdout, core.Trunc(got.stderr, 300), want),
+					map[string]any{"args": fmt.Sprintf("%q", args), "stdin": stdin})
+				continue
+			}
+			c.Count("usage_and_io_error_cases", 1)
+			c.Nontrivial(core.Hash("stdin-kind", stdin, fmt.Sprint(args)))
+		}
+	}
 	for _, u := range cases {
 		got := runCLI(dir, u.stdin, u.args...)
 		c.Eval(1)
@@ -487,7 +559,7 @@ func init() {
 		Level: "exploration",
 		Rule: "process monitor on the built cmd/bcl (rebuilt from /repo by run.sh): stdout, stderr and exit status of each child process are compared with what the library gives in-process for the same file, input name and options (ParseFile(disasm, stats) + Execute(trace, stats) + the documented result lines; exit 0 / 1), across equivalent argument vectors: every subset of -d -t -r -s spelled short, long, mixed, clustered in any letter order, split clusters, repeated letters, with the file before, between, after the flags and after '--', given as '-' or omitted with standard input. " +
 			"23 usage / I/O error cases must exit with the documented status 2 / 1 and a message on stderr. '--bdump' (derived and explicit name) must not change the outcome and '--bload F', '--bload=F' and '--bload < F' must reproduce output and exit status of the direct run. Every child gets an explicit stdin and a 60 s watchdog (firing = inconclusive). " +
-			"distinct = hash(program, flags); non-trivial = all vectors of the case ran to exit and were compared Also: standard input through a pipe in two pieces with a pause; file stems ending in b/c/l/.; --bdump=/dev/full; the same flag given twice in both orders; a dump name containing '='; re-dump onto the loaded file; a dump over an existing longer dump.",
+			"distinct = hash(program, flags); non-trivial = all vectors of the case ran to exit and were compared Also: standard input through a pipe in two pieces with a pause; file stems ending in b/c/l/.; --bdump=/dev/full; the same flag given twice in both orders; a dump name containing '='; re-dump onto the loaded file; a dump over an existing longer dump. Also: the file given by a name that is not a regular file (/dev/stdin, a named pipe that a writer feeds); the bare command and '-' on every kind of standard input (/dev/null, an empty regular file, a program file).",
 		Assumptions:   []string{"the library's in-process result is the reference (C01-C04, C19 check the library itself)"},
 		MinNontrivial: 60,
 		Run: func(c *core.Ctx) {
